@@ -1,5 +1,7 @@
 //! mc-chain: serves C13 (see /verif/DESIGN.md §4)
 mod c13;
+mod node;
+mod sut;
 
 fn main() {
     let ctx = mc_core::Ctx::from_args();
